@@ -101,7 +101,7 @@ def blockHeader (src : Bytes) (ip remaining : Nat) : R BlockHdr :=
     let h := src.le24 ip
     let ty := (h >>> 1) &&& 3
     let sz := h >>> 3
-    if ty == 3 then .error .corruption
+    if ty == 3 then .error (.corruptionAt "Frame:104")
     else .ok { last := h &&& 1 == 1, ty := ty, cSize := if ty == 1 then 1 else sz, origSize := sz }
 
 structure BlockTrace where
@@ -135,13 +135,13 @@ structure Opts where
 def decompressFrame (src : Bytes) (ip0 remaining0 : Nat) (dict : Dict) (out0 : ByteArray) (cap : Nat) (o : Opts) :
     R (ByteArray × Nat × FrameTrace) := do
   let minHdr := if o.magicless then 2 else 6
-  if remaining0 < minHdr + ZSTD_blockHeaderSize then throw .srcSizeWrong
+  if remaining0 < minHdr + ZSTD_blockHeaderSize then throw (.srcSizeWrongAt "Frame:138")
   let fhd := src.u8 (ip0 + (if o.magicless then 0 else 4))
   let fhSize := headerSizeOf fhd o.magicless
-  if remaining0 < fhSize + ZSTD_blockHeaderSize then throw .srcSizeWrong
+  if remaining0 < fhSize + ZSTD_blockHeaderSize then throw (.srcSizeWrongAt "Frame:141")
   let h ← match getHeader src ip0 fhSize o.magicless with
     | .ok h => if h.skippable then throw .prefixUnknown else pure h
-    | .need _ => throw .srcSizeWrong
+    | .need _ => throw (.srcSizeWrongAt "Frame:144")
     | .err e => throw e
   if h.dictID != 0 && dict.id != h.dictID then throw .dictWrong
   let blockSizeMax := if o.maxBlockSize != 0 then min h.blockSizeMax o.maxBlockSize else h.blockSizeMax
@@ -157,7 +157,7 @@ def decompressFrame (src : Bytes) (ip0 remaining0 : Nat) (dict : Dict) (out0 : B
     let bh ← blockHeader src ip remaining
     ip := ip + ZSTD_blockHeaderSize
     remaining := remaining - ZSTD_blockHeaderSize
-    if bh.cSize > remaining then throw .srcSizeWrong
+    if bh.cSize > remaining then throw (.srcSizeWrongAt "Frame:160")
     let before := out.size
     let mut btr : Option Block.Trace := none
     if bh.ty == 2 then
@@ -177,9 +177,9 @@ def decompressFrame (src : Bytes) (ip0 remaining0 : Nat) (dict : Dict) (out0 : B
     ip := ip + bh.cSize
     remaining := remaining - bh.cSize
     if bh.last then break
-  if !((blocks.back?.map (·.hdr.last)).getD false) then throw .srcSizeWrong
+  if !((blocks.back?.map (·.hdr.last)).getD false) then throw (.srcSizeWrongAt "Frame:180")
   match h.fcs with
-  | some n => if out.size - frameStart != n then throw .corruption
+  | some n => if out.size - frameStart != n then throw (.corruptionAt "Frame:182")
   | none => pure ()
   let mut storedCk : Option Nat := none
   if h.checksum then
@@ -227,7 +227,7 @@ def decompressAll (src : Bytes) (dict : Dict) (cap : Nat) (o : Opts := {}) : R (
         remaining := remaining - sk
         continue
     match decompressFrame src ip remaining dict out cap o with
-    | .error .prefixUnknown => if more then throw .srcSizeWrong else throw .prefixUnknown
+    | .error .prefixUnknown => if more then throw (.srcSizeWrongAt "Frame:230") else throw .prefixUnknown
     | .error e => throw e
     | .ok (out', used, tr) =>
       out := out'
@@ -235,33 +235,34 @@ def decompressAll (src : Bytes) (dict : Dict) (cap : Nat) (o : Opts := {}) : R (
       remaining := remaining - used
       traces := traces.push tr
       more := true
-  if remaining != 0 then throw .srcSizeWrong
+  if remaining != 0 then throw (.srcSizeWrongAt "Frame:238")
   return (out, traces)
 
 /-- ZSTD_findFrameCompressedSize: walks headers only -/
 def findFrameCompressedSize (src : Bytes) (ip0 remaining0 : Nat) (magicless : Bool := false) : R Nat := do
+  if !magicless && remaining0 ≥ 4 && isLegacyMagic (src.le32 ip0) then throw .legacy
   if !magicless && remaining0 ≥ 8 && (src.le32 ip0) &&& ZSTD_MAGIC_SKIPPABLE_MASK == ZSTD_MAGIC_SKIPPABLE_START then
     skippableSize src ip0 remaining0
   else
     let h ← match getHeader src ip0 remaining0 magicless with
       | .ok h => pure h
-      | .need _ => throw .srcSizeWrong
+      | .need _ => throw (.srcSizeWrongAt "Frame:248")
       | .err e => throw e
-    if h.skippable then throw .srcSizeWrong
+    if h.skippable then throw (.srcSizeWrongAt "Frame:250")
     let mut ip := ip0 + h.headerSize
     let mut remaining := remaining0 - h.headerSize
     let mut doneLast := false
     for _ in [0:remaining0] do
       let bh ← blockHeader src ip remaining
-      if ZSTD_blockHeaderSize + bh.cSize > remaining then throw .srcSizeWrong
+      if ZSTD_blockHeaderSize + bh.cSize > remaining then throw (.srcSizeWrongAt "Frame:256")
       ip := ip + ZSTD_blockHeaderSize + bh.cSize
       remaining := remaining - (ZSTD_blockHeaderSize + bh.cSize)
       if bh.last then
         doneLast := true
         break
-    if !doneLast then throw .srcSizeWrong
+    if !doneLast then throw (.srcSizeWrongAt "Frame:262")
     if h.checksum then
-      if remaining < 4 then throw .srcSizeWrong
+      if remaining < 4 then throw (.srcSizeWrongAt "Frame:264")
       ip := ip + 4
     return ip - ip0
 
